@@ -39,7 +39,8 @@ type exchange struct {
 
 // sessionPort drives one real *mqtt.Client sequentially.
 type sessionPort struct {
-	cfgx      []string // the rest of the Config (cfgx op)
+	rwait     []time.Duration // ReconnectWaitMin, ReconnectWaitMax (rwait op)
+	cfgx      []string        // the rest of the Config (cfgx op)
 	log       *eventLog
 	store     *simStore
 	client    *mqtt.Client
@@ -184,6 +185,9 @@ func (p *sessionPort) dialer(ctx context.Context) (net.Conn, error) {
 
 func (p *sessionPort) config(clean string, m1, m2 string) *mqtt.Config {
 	c := p.baseConfig(clean, m1, m2)
+	if p.rwait != nil {
+		c.ReconnectWaitMin, c.ReconnectWaitMax = p.rwait[0], p.rwait[1]
+	}
 	if x := p.cfgx; x != nil {
 		c.KeepAlive = uint16(atoi(x[1]))
 		c.UserName = string(unhex(x[2]))
@@ -477,6 +481,9 @@ func (p *sessionPort) exec(f []string) []string {
 			p.client = c
 			return []string{"init ok"}
 		}, false)
+	case "rwait": // rwait <min-ns> <max-ns>: ReconnectWaitMin and ReconnectWaitMax of the Config for the sessions that follow
+		p.rwait = []time.Duration{time.Duration(atoi(f[1])), time.Duration(atoi(f[2]))}
+		return nil
 	case "cfgx": // cfgx <keepalive> <user> <pass|nil> <willtopic> <willmsg|nil> <retain> <alo> <eo>: the rest of the Config for the sessions that follow
 		p.cfgx = f
 		return nil
